@@ -172,7 +172,21 @@ pub fn ledger_segments(case: &Case) -> Vec<Value> {
         }
         // acb refuses, before any bookkeeping, inputs in which an affiliate-specific split sits next
         // to a split for all affiliates; that input validation is outside the ledger properties
-        RunOutcome::Err(e) if e.starts_with("Found non-global split") => fail_all(&mut out, "skipped", &e, &by_sec, &seg_base),
+        // (the rule itself is Tx!DupSplit; the security the message names is judged against it, the others
+        // of the same run have no outcome of their own)
+        RunOutcome::Err(e) if e.starts_with("Found non-global split") => {
+            fail_all(&mut out, "skipped", &e, &by_sec, &seg_base);
+            let named = e
+                .strip_prefix("Found non-global split of ")
+                .and_then(|t| t.split(" near global split on ").next())
+                .unwrap_or("")
+                .to_string();
+            for seg in out.iter_mut() {
+                if seg["sec"].as_str() == Some(named.as_str()) {
+                    seg["status"] = json!("dupsplit");
+                }
+            }
+        }
         RunOutcome::Err(e) => fail_all(&mut out, "error", &e, &by_sec, &seg_base),
         RunOutcome::Panic(e) => fail_all(&mut out, "panic", &e, &by_sec, &seg_base),
     }
